@@ -442,11 +442,29 @@ fn replay_crl(input: &Value) -> R {
 		});
 	}
 	let n_rev = revoked.len();
+	let want_entry: Vec<(Option<i64>, bool)> = input
+		.get("revoked")
+		.and_then(|x| x.as_array())
+		.unwrap_or(&vec![])
+		.iter()
+		.map(|r| (r.get("reason").and_then(|x| x.as_i64()), r.get("inv").map(|x| !x.is_null()).unwrap_or(false)))
+		.collect();
+	let idp = input.get("idp").filter(|x| !x.is_null()).map(|i| CrlIssuingDistributionPoint {
+		distribution_point: CrlDistributionPoint {
+			uris: i["uris"].as_array().unwrap_or(&vec![]).iter().map(|u| u.as_str().unwrap_or("").to_string()).collect(),
+		},
+		scope: match i.get("scope").and_then(|x| x.as_str()) {
+			Some("user") => Some(CrlScope::UserCertsOnly),
+			Some("ca") => Some(CrlScope::CaCertsOnly),
+			_ => None,
+		},
+	});
+	let want_idp = idp.is_some();
 	let params = CertificateRevocationListParams {
 		this_update: this,
 		next_update: next,
 		crl_number: SerialNumber::from_slice(&[1]),
-		issuing_distribution_point: None,
+		issuing_distribution_point: idp,
 		revoked_certs: revoked,
 		key_identifier_method: KeyIdMethod::Sha256,
 	};
@@ -477,19 +495,73 @@ fn replay_crl(input: &Value) -> R {
 			}
 			if n_rev > 0 {
 				let list = &tbs.children[5];
-				for entry in &list.children {
+				for (k, entry) in list.children.iter().enumerate() {
+					let mut has_reason = false;
+					let mut has_inv = false;
 					if let Some(exts) = entry.children.get(2) {
-						for e in exts_of(exts, buf)? {
-							if e.oid == "2.5.29.24" && e.value[0] != 0x18 {
+						let es = exts_of(exts, buf)?;
+						if es.is_empty() {
+							ok = false;
+							notes.push("empty crlEntryExtensions".to_string());
+						}
+						for e in es {
+							if e.oid == "2.5.29.21" {
+								has_reason = true;
+							}
+							if e.oid == "2.5.29.24" {
+								has_inv = true;
+								if e.value[0] != 0x18 {
+									ok = false;
+									notes.push(format!("invalidityDate is not a GeneralizedTime: {}", der::hex(&e.value)));
+								}
+							}
+							if e.critical {
 								ok = false;
-								notes.push(format!(
-									"invalidityDate is not a GeneralizedTime: {}",
-									der::hex(&e.value)
-								));
+								notes.push(format!("entry extension {} is critical", e.oid));
 							}
 						}
 					}
+					if let Some((reason, inv)) = want_entry.get(k) {
+						if *inv != has_inv {
+							ok = false;
+							notes.push(format!("entry {}: invalidityDate requested={} present={}", k, inv, has_inv));
+						}
+						match reason {
+							None if has_reason => {
+								ok = false;
+								notes.push(format!("entry {}: reason code written although none was given", k));
+							},
+							Some(r) if *r != 0 && !has_reason => {
+								ok = false;
+								notes.push(format!("entry {}: reason {} dropped", k, r));
+							},
+							_ => {},
+						}
+					}
 				}
+			}
+			// crlExtensions: AKI + CRL number always, IDP iff requested and then critical
+			if let Some(w) = tbs.children.iter().find(|c| c.tag == 0xA0) {
+				let es = exts_of(&w.children[0], buf)?;
+				let find = |o: &str| es.iter().find(|e| e.oid == o);
+				if find("2.5.29.35").is_none() || find("2.5.29.20").is_none() {
+					ok = false;
+					notes.push("authority key identifier or CRL number missing".to_string());
+				}
+				match find("2.5.29.28") {
+					Some(e) if !want_idp || !e.critical => {
+						ok = false;
+						notes.push(format!("issuing distribution point: requested={} critical={}", want_idp, e.critical));
+					},
+					None if want_idp => {
+						ok = false;
+						notes.push("issuing distribution point requested but missing".to_string());
+					},
+					_ => {},
+				}
+			} else {
+				ok = false;
+				notes.push("crlExtensions missing".to_string());
 			}
 			Ok((
 				ok,
@@ -669,6 +741,46 @@ fn replay_dn_search(input: &Value) -> R {
 	Ok((true, json!({"histories_tried": tried, "max_len": max_len, "types": nt}), json!("model agreement on every history")))
 }
 
+/// C03: import a CA certificate whose subject repeats an attribute type (CN=a,CN=b — obtained by
+/// patching the attribute OID inside a certificate generated by rcgen), issue from the imported
+/// parameters and compare the issued certificate's issuer field with the CA's subject field.
+fn replay_import_repeated_dn(_input: &Value) -> R {
+	let ca_key = KeyPair::generate_for(&PKCS_ED25519).map_err(|e| e.to_string())?;
+	let mut p = CertificateParams::default();
+	p.distinguished_name = DistinguishedName::new();
+	p.distinguished_name.push(DnType::CommonName, "a");
+	p.distinguished_name.push(DnType::OrganizationName, "b");
+	p.is_ca = IsCa::Ca(BasicConstraints::Unconstrained);
+	let ca = p.self_signed(&ca_key).map_err(|e| e.to_string())?;
+	let mut der: Vec<u8> = ca.der().to_vec();
+	// 06 03 55 04 0a (organizationName) -> 06 03 55 04 03 (commonName)
+	let mut patched = 0;
+	for i in 0..der.len().saturating_sub(4) {
+		if der[i..i + 5] == [0x06, 0x03, 0x55, 0x04, 0x0a] {
+			der[i + 4] = 0x03;
+			patched += 1;
+		}
+	}
+	let root = der::parse(&der)?;
+	let subj = root.children[0].children[5].whole(&der).to_vec();
+	let imported = match CertificateParams::from_ca_cert_der(&der.clone().into()) {
+		Err(e) => return Ok((true, json!({"import": format!("Err({})", e)}), json!("import fails, or issuer == CA subject"))),
+		Ok(p) => p,
+	};
+	let n_attrs = imported.distinguished_name.iter().count();
+	let ca2 = imported.self_signed(&ca_key).map_err(|e| e.to_string())?;
+	let leaf_key = KeyPair::generate_for(&PKCS_ED25519).map_err(|e| e.to_string())?;
+	let leaf = CertificateParams::default().signed_by(&leaf_key, &ca2, &ca_key).map_err(|e| e.to_string())?;
+	let lbuf: &[u8] = leaf.der();
+	let lroot = der::parse(lbuf)?;
+	let issuer = lroot.children[0].children[3].whole(lbuf).to_vec();
+	Ok((
+		issuer == subj,
+		json!({"patched_oids": patched, "ca_subject": der::hex(&subj), "issued_issuer": der::hex(&issuer), "imported_attributes": n_attrs}),
+		json!("issuer field byte-identical to the CA certificate's subject (2 attributes)"),
+	))
+}
+
 fn replay_string(input: &Value) -> R {
 	let cps: Vec<u32> = match input.get("cps").and_then(|x| x.as_array()) {
 		Some(a) => a.iter().filter_map(|x| x.as_u64()).map(|x| x as u32).collect(),
@@ -759,6 +871,7 @@ fn main() {
 		"panic_site" => replay_panic_site(&input),
 		"dn_ops" => replay_dn_ops(&input),
 		"dn_search" => replay_dn_search(&input),
+		"import_repeated_dn" => replay_import_repeated_dn(&input),
 		"string" => replay_string(&input),
 		"cidr" => replay_cidr(&input),
 		"csr_refusal" => replay_csr_refusal(&input),
